@@ -17,7 +17,10 @@ from common import Check, batch, vacuity
 import refactor as rf
 
 STMT = re.compile(r"^(\s+)(let |println\(|print\(|if |while |for |assert\(|[a-z_][a-z0-9_]* = )")
-BAIT = ["7", '"unused"', "[1, 2]", "(1, 2)", "let zq{k} = 5", "let zq{k} = [1].len()", "let zq{k} = True || True", "let zq{k} = (1 < 2) && (1 < 2)",
+# (a match whose value is discarded, with one-line cases ending in a literal: dropping a case would send its
+#  scrutinee to the fallback case, which prints)
+MATCH_BAIT = 'match [9].get({k}) {\n  Some(zq{k}) => { print("") 1 }\n  None => { 0 }\n  _ => { print("zw") 2 }\n}'
+BAIT = ["7", '"unused"', "[1, 2]", "(1, 2)", MATCH_BAIT, MATCH_BAIT, "let zq{k} = 5", "let zq{k} = [1].len()", "let zq{k} = True || True", "let zq{k} = (1 < 2) && (1 < 2)",
         "let zq{k} = [1, 2].len() == 0", "let zq{k} = [].len() > 0"]
 
 
@@ -30,7 +33,7 @@ def bait(rnd, src):
     for i in sorted(spots[:rnd.randint(1, 4)], reverse=True):
         ind = STMT.match(lines[i]).group(1)
         k += 1
-        lines.insert(i, ind + rnd.choice(BAIT).replace("{k}", str(k)))
+        lines.insert(i, "\n".join(ind + l for l in rnd.choice(BAIT).replace("{k}", str(k)).split("\n")))
     # unused type parameters on a function, in several layouts: inert, and the fix removes them
     funs = [i for i, l in enumerate(lines) if re.match(r"^(fun|method) \w+\(", l)]
     if funs and rnd.random() < 0.5:
